@@ -37,6 +37,7 @@ class Sched:
         self.wait_s = wait_s
         self.preemptions = 0
         self.on_step = None
+        self.acq_log = []        # (thread, SLock) in acquisition order
 
     # -- baton
     def _runnable_after(self, me):
@@ -119,26 +120,63 @@ class Sched:
 
 
 class SLock:
-    """Scheduler-aware stand-in for threading.Lock (context-manager protocol): a thread that finds it taken yields its
-    turn instead of blocking the only running thread."""
+    """Scheduler-aware stand-in for threading.Lock / RLock (context-manager protocol and acquire/release): a thread that finds it
+    taken yields its turn instead of blocking the only running thread."""
 
-    def __init__(self, sched, me_of, name='lock'):
+    def __init__(self, sched, me_of, name='lock', reentrant=False):
         self.s, self.me_of, self.owner, self.name = sched, me_of, None, name
+        self.reentrant, self.depth = reentrant, 0
 
     def __enter__(self):
         me = self.me_of()
+        if self.reentrant and self.owner == me:
+            self.depth += 1
+            return self
         while self.owner is not None:
             self.s.emit(me, 'blocked')
             self.s.block(me)
         self.owner = me
+        self.depth = 1
         self.s.emit(me, 'acquire')
+        self.s.acq_log.append((me, self))
         return self
 
     def __exit__(self, *a):
         me = self.me_of()
+        if self.reentrant and self.depth > 1:
+            self.depth -= 1
+            return False
         self.owner = None
+        self.depth = 0
         self.s.unblock_all()
         self.s.emit(me, 'release')
+        return False
+
+    def acquire(self, blocking=True, timeout=-1):
+        if not blocking and self.owner is not None and not (self.reentrant and self.owner == self.me_of()):
+            return False
+        self.__enter__()
+        return True
+
+    def release(self):
+        self.__exit__(None, None, None)
+
+    def locked(self):
+        return self.owner is not None
+
+
+class NoLock:
+    """The mutant: a lock that does not lock."""
+
+    def __init__(self, sched, me_of, name='nolock', reentrant=False):
+        self.s, self.me_of, self.name = sched, me_of, name
+
+    def __enter__(self):
+        self.s.emit(self.me_of(), 'acquire')
+        return self
+
+    def __exit__(self, *a):
+        self.s.emit(self.me_of(), 'release')
         return False
 
     def acquire(self, blocking=True, timeout=-1):
@@ -148,20 +186,174 @@ class SLock:
     def release(self):
         self.__exit__(None, None, None)
 
+    def locked(self):
+        return False
 
-class NoLock:
-    """The mutant: a lock that does not lock."""
 
-    def __init__(self, sched, me_of):
-        self.s, self.me_of = sched, me_of
+class LazySLock:
+    """The mutant for the self-test of the exploration and for the tie of the model `Ll`: a lock that is created ON FIRST USE, by an
+    unsynchronised check-then-set with a scheduling point between every two actions:
+        lock = cell; if lock is None: lock = Lock(); cell = lock;  acquire(lock)"""
+
+    def __init__(self, patch, reentrant=False):
+        self.patch, self.cell, self.mine = patch, None, {}
 
     def __enter__(self):
-        self.s.emit(self.me_of(), 'acquire')
+        p = self.patch
+        s, me = p.sched, p.me_of()
+        p.lazy_point(me)
+        s.point(me, 'L.read')
+        lk = self.cell
+        if lk is None:
+            p.lazy_point(me)
+            s.point(me, 'L.create')
+            lk = SLock(s, p.me_of, name='lazy%d' % len(p.lazy_created))
+            p.lazy_created.append(lk)
+            p.lazy_point(me)
+            s.point(me, 'L.store')
+            self.cell = lk
+        p.lazy_point(me)
+        s.point(me, None)
+        self.mine[me] = lk
+        lk.__enter__()
         return self
 
     def __exit__(self, *a):
-        self.s.emit(self.me_of(), 'release')
-        return False
+        return self.mine.pop(self.patch.me_of()).__exit__(*a)
+
+    def acquire(self, blocking=True, timeout=-1):
+        self.__enter__()
+        return True
+
+    def release(self):
+        self.__exit__(None, None, None)
+
+
+_REAL_LOCK = threading.Lock
+_REAL_RLOCK = threading.RLock
+_LOCK_TYPES = (type(_REAL_LOCK()), type(_REAL_RLOCK()))
+
+
+class LockPatch:
+    """Makes the locks of the code under test scheduler-aware WITHOUT knowing how that code names or stores them.
+
+    While active (``activate(sched, me_of)`` ... ``deactivate()``):
+      * every ``threading.Lock()`` / ``threading.RLock()`` executed by code whose file satisfies ``is_target`` - through the
+        ``threading`` module or through a module-level name bound to it (``from threading import Lock``) - returns an
+        :class:`SLock` of the current scheduler (``mode='nolock'``: a :class:`NoLock`); ``created`` lists them in creation order;
+      * lock objects that already exist - in the globals of the target modules, or (``adopt(obj)``) in the instance/class
+        attributes of an object of the code under test and of the falcon objects it refers to - are replaced by SLocks and put back
+        on ``deactivate()``.
+    A lock reached in another way (closure cell, C extension) stays a real lock: if a preempted thread holds it the scheduler
+    reports a deadlock after its time-out instead of crashing."""
+
+    def __init__(self, modules, is_target):
+        self.modules, self.is_target = list(modules), is_target
+        self.sched = self.me_of = None
+        self.mode = 'lock'
+        self.created = []
+        self.lazy_created = []       # mode 'lazy': the locks the LazySLock proxies created, in creation order
+        self.on_point = None         # mode 'lazy': called before each scheduling point inside a proxy (recording runs)
+        self.adopted = 0
+        self._undo = []
+
+    def lazy_point(self, me):
+        if self.on_point is not None:
+            self.on_point(me)
+
+    def _make(self, real, reentrant):
+        def make(*a, **kw):
+            if self.sched is not None:
+                try:
+                    fn = sys._getframe(1).f_code.co_filename
+                except ValueError:
+                    fn = ''
+                if self.is_target(fn):
+                    return self._new(reentrant)
+            return real(*a, **kw)
+        make.__name__ = 'RLock' if reentrant else 'Lock'
+        return make
+
+    def _new(self, reentrant=False):
+        if self.mode == 'lazy':
+            lk = LazySLock(self)
+            self.created.append(lk)
+            return lk
+        cls = SLock if self.mode == 'lock' else NoLock
+        lk = cls(self.sched, self.me_of, name='lock%d' % len(self.created), reentrant=reentrant)
+        self.created.append(lk)
+        return lk
+
+    def _set(self, holder, name, value, is_dict=False):
+        try:
+            old = holder[name] if is_dict else getattr(holder, name)
+            if is_dict:
+                holder[name] = value
+            else:
+                setattr(holder, name, value)
+            self._undo.append((holder, name, old, is_dict))
+            return True
+        except Exception:  # noqa  (read-only attribute: leave it)
+            return False
+
+    def activate(self, sched, me_of, mode='lock'):
+        self.sched, self.me_of, self.mode = sched, me_of, mode
+        self.created, self.lazy_created, self.adopted, self._undo = [], [], 0, []
+        mk_lock, mk_rlock = self._make(_REAL_LOCK, False), self._make(_REAL_RLOCK, True)
+        self._set(threading, 'Lock', mk_lock)
+        self._set(threading, 'RLock', mk_rlock)
+        for m in self.modules:
+            for name, val in list(vars(m).items()):
+                if val is _REAL_LOCK:
+                    self._set(vars(m), name, mk_lock, True)
+                elif val is _REAL_RLOCK:
+                    self._set(vars(m), name, mk_rlock, True)
+                elif isinstance(val, _LOCK_TYPES):
+                    if self._set(vars(m), name, self._new(type(val) is _LOCK_TYPES[1]), True):
+                        self.adopted += 1
+
+    def adopt(self, obj, depth=2, _seen=None):
+        """replace the real lock objects stored on `obj` (instance attributes, slots, class attributes) and on the falcon objects it
+        refers to"""
+        if _seen is None:
+            _seen = set()
+        if id(obj) in _seen or depth < 0:
+            return
+        _seen.add(id(obj))
+        names = []
+        d = getattr(obj, '__dict__', None)
+        if isinstance(d, dict):
+            names += list(d)
+        for c in type(obj).__mro__:
+            sl = c.__dict__.get('__slots__', ())
+            names += [sl] if isinstance(sl, str) else list(sl)
+            for name, val in list(c.__dict__.items()):
+                if isinstance(val, _LOCK_TYPES) and self._set(c, name, self._new(type(val) is _LOCK_TYPES[1])):
+                    self.adopted += 1
+        for name in names:
+            if name in ('__dict__', '__weakref__'):
+                continue
+            try:
+                val = object.__getattribute__(obj, name)
+            except Exception:  # noqa  (unset slot)
+                continue
+            if isinstance(val, _LOCK_TYPES):
+                if self._set(obj, name, self._new(type(val) is _LOCK_TYPES[1])):
+                    self.adopted += 1
+            elif (type(val).__module__ or '').split('.')[0] == 'falcon':
+                self.adopt(val, depth - 1, _seen)
+
+    def deactivate(self):
+        for holder, name, old, is_dict in reversed(self._undo):
+            try:
+                if is_dict:
+                    holder[name] = old
+                else:
+                    setattr(holder, name, old)
+            except Exception:  # noqa
+                pass
+        self._undo = []
+        self.sched = self.me_of = self.on_point = None
 
 
 class Pool:
